@@ -193,8 +193,12 @@ Definition prop_ok (seqs : list (list Z)) : bool :=
 
 (* one more call made after all threads were joined must exceed everything handed out
    (the atomic holds the maximum handed out) *)
-Definition final_ok (seqs : list (list Z)) (final : Z) : bool :=
-  forallb (forallb (fun v => v <? final)) seqs.
+Fixpoint all_below (f : Z) (l : list Z) : bool :=
+  match l with
+  | [] => true
+  | v :: r => if v <? f then all_below f r else false
+  end.
+Definition final_ok (seqs : list (list Z)) (final : Z) : bool := forallb (all_below final) seqs.
 
 (* Single-thread sequence with the harness' own clock readings around every call:
    sample = (t0, v, t1), t0/t1 = microseconds since the epoch read just before/after the call
